@@ -81,6 +81,7 @@ fn main() {
 fn replay(sink: &mut common::Sink, toks: &[&str]) {
     match toks[0] {
         "ptr" | "ptrmut" | "pidx" => c18::replay(sink, toks),
+        "vget" | "vindex" | "vindexmut" | "vtake" | "peq" | "jsonm" | "jsonp" | "jsonmbuild" => c18::replay(sink, toks),
         "pv" | "pi" => c01::replay(sink, toks),
         "pfx" => c10::replay(sink, toks),
         "int" | "acc" | "iprint" => c06::replay(sink, toks),
